@@ -742,7 +742,9 @@ func cacheHistories(c *mc.Ctx) {
 			break
 		}
 	}
-	keys = append(keys, key{bad, keys[0].sig, false}, key{keys[0].pk[:31], keys[0].sig, false}, key{nil, keys[0].sig, false})
+	keys = append(keys, key{bad, keys[0].sig, false}, key{keys[0].pk[:31], keys[0].sig, false}, key{nil, keys[0].sig, false},
+		// a wrong-length key whose first 32 bytes are a key that may be resident in the cache
+		key{append(append([]byte{}, keys[0].pk...), 0), keys[0].sig, false})
 	nops := len(keys) * 3
 	depth := c.Pick(3, 4)
 	total := 1
